@@ -14,7 +14,9 @@ def gen_program(r, big=False):
     nv = r.choice([1, 2, 2, 3, 4])
     mode = r.choice([-1, 0, 0, 3, 8])
     ring = r.choice([1, 2, 4, 64, 65536])
-    lines = ["pool %d %d %d" % (nv, mode, ring)]
+    joiners = r.choice([0, 0, 1, 2])       # extra vCPUs that join the pool with join_current_vcpu_into_workpool()
+    lines = ["pool %d %d %d %d" % (nv, mode, ring, joiners)]
+    nsub = [0]
     k = 0
     for i in range(r.randint(1, 5 if big else 4)):
         ops = []
@@ -25,8 +27,10 @@ def gen_program(r, big=False):
                 # in the inline mode (-1) a task that blocks holds its worker's loop; keep bodies short there
                 body = r.choice(["e", "e", "y1", "y3", "s10", "s100"]) if mode >= 0 else r.choice(["e", "e", "y1", "s10"])
                 ops.append("%s%d:%s" % ("c" if r.random() < 0.5 else "a", k, body))
-            elif c < 0.9:
+            elif c < 0.87:
                 ops.append("y")
+            elif c < 0.94:
+                ops.append("i%s" % ("S%d" % r.randrange(0, 5)))      # interrupt another submitter if it is blocked in call()
             else:
                 ops.append("s%d" % r.choice([10, 100]))
         if r.random() < 0.4:
